@@ -4,6 +4,7 @@ package c15
 import (
 	"bytes"
 	"crypto"
+	_ "crypto/md5"
 	_ "crypto/sha1"
 	_ "crypto/sha256"
 	_ "crypto/sha512"
@@ -16,6 +17,9 @@ import (
 
 	"github.com/wollac/iota-crypto-demo/pkg/merkle"
 	_ "golang.org/x/crypto/blake2b"
+	_ "golang.org/x/crypto/blake2s"
+	_ "golang.org/x/crypto/ripemd160"
+	_ "golang.org/x/crypto/sha3"
 	"pgregory.net/rapid"
 
 	"verifharness/h"
@@ -23,7 +27,11 @@ import (
 
 func TestMain(m *testing.M) { h.Main(m) }
 
-var hashes = []crypto.Hash{crypto.SHA256, crypto.SHA512, crypto.BLAKE2b_256, crypto.SHA1}
+// every hash function of the crypto registry that is linked in (the first four are the ones the
+// library's own tests and examples use)
+var hashes = []crypto.Hash{crypto.SHA256, crypto.SHA512, crypto.BLAKE2b_256, crypto.SHA1,
+	crypto.SHA224, crypto.SHA384, crypto.SHA512_224, crypto.SHA512_256, crypto.SHA3_224, crypto.SHA3_256, crypto.SHA3_384, crypto.SHA3_512,
+	crypto.BLAKE2b_384, crypto.BLAKE2b_512, crypto.BLAKE2s_256, crypto.MD5, crypto.RIPEMD160}
 
 func hsum(hf crypto.Hash, parts ...[]byte) []byte {
 	x := hf.New()
@@ -116,6 +124,11 @@ type structLeaf struct{ a, b []byte }
 func (l *structLeaf) MarshalBinary() ([]byte, error) {
 	return append(append([]byte{}, l.a...), l.b...), nil
 }
+
+// nilLeaf marshals to a nil slice with a nil error: the empty encoding, like []byte{}.
+type nilLeaf struct{}
+
+func (nilLeaf) MarshalBinary() ([]byte, error) { return nil, nil }
 
 type failLeaf struct{ idx int }
 
@@ -238,6 +251,21 @@ func checkTree(c treeCase) (h.Info, error) {
 	if err != nil || !bytes.Equal(g2, got) {
 		return info, fmt.Errorf("same marshalled content through another leaf type gives %x, %v (want %x)", g2, err, got)
 	}
+	// an empty leaf may come as a nil slice
+	hasEmpty := false
+	third := make([]encoding.BinaryMarshaler, n)
+	for i := range third {
+		third[i] = data[i]
+		if len(raw[i]) == 0 {
+			third[i] = nilLeaf{}
+			hasEmpty = true
+		}
+	}
+	if hasEmpty {
+		if g3, err := hasher.Hash(third); err != nil || !bytes.Equal(g3, got) {
+			return info, fmt.Errorf("the same %d leaves with the empty ones marshalling to a nil slice (nil error) give %x, %v (want %x)", n, g3, err, got)
+		}
+	}
 	for _, m := range c.Probe {
 		if m < 0 || m >= n {
 			continue
@@ -284,7 +312,7 @@ func TestEveryCount(t *testing.T) {
 	}
 	h.RunEnum(t, h.Enum[countCase]{
 		Prop: "C15", Name: "every-leaf-count",
-		Rule: fmt.Sprintf("complete enumeration of every leaf count 0..%d (x hash function by rotation x 3 leaf patterns by rotation, SHA-256 for every count) plus 2^k+{-2..2} for k <= 13 (quick) / 18 (thorough) and 65537, 65538, 98305, 131073 in every tier; root = iterative bottom-up reference, RFC 9162 inclusion proofs of leaves 0, n/2, k-1, k, n-1 verify; non-trivial = n >= 3 and not a power of two; distinct by construction", maxN),
+		Rule: fmt.Sprintf("complete enumeration of every leaf count 0..%d (x hash function by rotation x 3 leaf patterns by rotation, SHA-256 for every count) plus n = 0..5 under each of the 17 linked hash functions, plus 2^k+{-2..2} for k <= 13 (quick) / 18 (thorough) and 65537, 65538, 98305, 131073 in every tier; root = iterative bottom-up reference, RFC 9162 inclusion proofs of leaves 0, n/2, k-1, k, n-1 verify; non-trivial = n >= 3 and not a power of two; distinct by construction", maxN),
 		Each: func(yield func(countCase) bool) {
 			for n := 0; n <= maxN; n++ {
 				if !yield(countCase{n, 0, n % 3}) {
@@ -292,6 +320,14 @@ func TestEveryCount(t *testing.T) {
 				}
 				if !yield(countCase{n, 1 + n%3, (n + 1) % 3}) {
 					return
+				}
+			}
+			// the smallest trees (incl. the empty one) under every linked hash function
+			for hi := range hashes {
+				for n := 0; n <= 5; n++ {
+					if !yield(countCase{n, hi, n % 3}) {
+						return
+					}
 				}
 			}
 			maxK := 13
@@ -346,7 +382,7 @@ func TestSchedulerWidth(t *testing.T) {
 	h.Run(t, h.Sub[procsCase]{
 		Prop: "C15", Name: "gomaxprocs-x-large-counts", N: 96,
 		Gen: func(t *rapid.T) procsCase {
-			c := procsCase{Procs: h.OneOf(t, "procs", 1, 2, 3, 4, 5, 6, 7, 8, 9, 10, 12, 15, 16, 24, 32), Hash: rapid.IntRange(0, 3).Draw(t, "hash"), Variant: rapid.IntRange(0, 2).Draw(t, "variant")}
+			c := procsCase{Procs: h.OneOf(t, "procs", 1, 2, 3, 4, 5, 6, 7, 8, 9, 10, 12, 15, 16, 24, 32), Hash: rapid.IntRange(0, len(hashes)-1).Draw(t, "hash"), Variant: rapid.IntRange(0, 2).Draw(t, "variant")}
 			switch h.Pick(t, "nk", 3, 3, 2) {
 			case 0:
 				c.N = 1 << uint(rapid.IntRange(10, 13).Draw(t, "k"))
@@ -421,7 +457,7 @@ func TestConcurrent(t *testing.T) {
 	h.Run(t, h.Sub[concCase]{
 		Prop: "C15", Name: "concurrent-callers", N: 80,
 		Gen: func(t *rapid.T) concCase {
-			c := concCase{Hash: rapid.IntRange(0, 3).Draw(t, "hash"), Iters: 60}
+			c := concCase{Hash: rapid.IntRange(0, len(hashes)-1).Draw(t, "hash"), Iters: 60}
 			for i := h.OneOf(t, "g", 2, 4, 8); i > 0; i-- {
 				tc := genTree(t)
 				if len(tc.Leaves) > 40 {
